@@ -1,14 +1,108 @@
-import DoitModel.Model.Clean
-/-! # C14 — clean acts on exactly the selected tasks, once, dependents first -/
+import DoitModel.Proofs.CleanSpec
+/-! # C14 — clean acts on exactly the selected tasks, once, dependents first
+
+Property theorems only (model: `Model/Clean.lean`; helpers: `Proofs/CleanFlat.lean`, `CleanOrder.lean`,
+`CleanBuild.lean`, `CleanSpec.lean`, `CleanEffects.lean`).  Quantification: every task table, every command
+line (positional arguments, patterns, default_tasks, the four flags), every world (files, directories, DB).
+
+`plan tbl r = .ok p` : the command was accepted; `p.order` is the list of tasks handed to `Task.clean`.
+`cleanList tbl r = .ok base` : `base` is `clean_list` of `Clean._execute` (named tasks / expanded patterns /
+default tasks / all tasks).  `InCleanSet tbl r base` is the declarative clean set of the property statement. -/
 namespace DoitModel.C14
 open DoitModel.Clean
 
-theorem rmTarget_dry (t : Name) (st : World × List Ev) (p : Path) : (rmTarget true t st p).1 = st.1 := by
-  unfold rmTarget
-  split
-  · rfl
-  · split
-    · split <;> rfl
-    · rfl
+/-- the fuel of `build_nodes_with_deps` (number of tasks + 1) is an artefact of the model; its sufficiency is
+    evaluated by the driver on every case (`oof`); `flat`'s fuel is proved sufficient below (`flat_terminates`) -/
+def BuildFuelOk (tbl : Table) (r : Req) (base : List Name) : Prop := (buildTree tbl r base).oof = false
+
+instance (tbl : Table) (r : Req) (base : List Name) : Decidable (BuildFuelOk tbl r base) := by
+  unfold BuildFuelOk; infer_instance
+
+/-- `flat` / `_get_leafs` terminate on **every** node table — cyclic dependency graphs included — and emit
+    each key of the table exactly once (a permutation of the keys).  (Each recursive call is preceded by a
+    `pop` of the node it descends into, so a cycle cannot be followed twice.) -/
+theorem flat_terminates (ns : Nodes) : (flat ns).oof = false ∧ (flat ns).out.Perm (keys ns) :=
+  flat_spec ns
+
+/-- what the code does on a cyclic graph `0 ⇄ 1` (`clean --clean-dep t0`): both are cleaned once, `1` first;
+    no diagnostic, no loop -/
+theorem cyclic_example :
+    (match plan [⟨['a'], [1], [], none, [], .action false⟩, ⟨['b'], [0], [], none, [], .action false⟩]
+        ⟨[['a']], none, true, false, false, false⟩ with
+      | .ok p => some (p.order, p.oof)
+      | .error _ => none) = some ([1, 0], false) := by decide
+
+/-- `clean_tasks`' de-duplication never removes anything: what `flat` emits is already duplicate-free -/
+theorem dedup_redundant (ns : Nodes) (h : (keys ns).Nodup) : dedup [] (flat ns).out = (flat ns).out :=
+  dedup_of_nodup _ _ ((flat_spec ns).2.nodup_iff.2 h) (fun _ _ hm => by simp at hm)
+
+private theorem plan_order {tbl : Table} {r : Req} {base : List Name} {p : Plan}
+    (hb : cleanList tbl r = .ok base) (hp : plan tbl r = .ok p) :
+    p.order = dedup [] (flat (buildTree tbl r base).nodes).out := by
+  simp only [plan, hb] at hp
+  cases hp
+  rfl
+
+private theorem tree_nodup {tbl : Table} {r : Req} {base : List Name} (hf : BuildFuelOk tbl r base) :
+    (keys (buildTree tbl r base).nodes).Nodup := by
+  unfold BuildFuelOk at hf
+  unfold buildTree at hf ⊢
+  by_cases hd : withDeps r = true
+  · simp only [hd, if_true] at hf ⊢
+    exact (buildAll_spec _ _ _ hf).1
+  · simp only [hd] at hf ⊢
+    exact (buildNoDeps_spec _ _).1
+
+/-- **flat_perm** — the tasks handed to `Task.clean` are duplicate-free and are exactly the declarative clean
+    set: the named / default / all tasks; with dependencies (`--clean-dep`, `--clean-all`, or no task named)
+    everything reachable over task_dep and setup; otherwise plus the direct sub-tasks of the named tasks -/
+theorem flat_perm (tbl : Table) (r : Req) (base : List Name) (p : Plan)
+    (hb : cleanList tbl r = .ok base) (hp : plan tbl r = .ok p) (hf : BuildFuelOk tbl r base) :
+    p.order.Nodup ∧ ∀ x, x ∈ p.order ↔ InCleanSet tbl r base x := by
+  have hnd := tree_nodup hf
+  have hperm := (flat_spec (buildTree tbl r base).nodes).2
+  have hord : p.order = (flat (buildTree tbl r base).nodes).out := by
+    rw [plan_order hb hp]; exact dedup_redundant _ hnd
+  rw [hord]
+  refine ⟨hperm.nodup_iff.2 hnd, fun x => ?_⟩
+  rw [hperm.mem_iff]
+  unfold BuildFuelOk at hf
+  unfold buildTree at hf ⊢
+  unfold InCleanSet
+  by_cases hd : withDeps r = true
+  · simp only [hd, if_true] at hf ⊢
+    obtain ⟨_, _, hroots, hclosed, hreach⟩ := buildAll_spec _ _ _ hf
+    constructor
+    · exact hreach x
+    · rintro ⟨n, hn, hr⟩
+      exact reach_in_closed (S := fun y => y ∈ keys (buildAll (depsOf tbl) (tbl.length + 1) base).nodes)
+        (fun a ha b hb => (hclosed a ha b hb).1) (hroots n hn) hr
+  · simp only [hd, Bool.false_eq_true, ↓reduceIte] at hf ⊢
+    rw [(buildNoDeps_spec _ _).2]
+    simp only [mem_subsRevOf]
+
+/-- **dependents_first** — when dependencies are included and task_dep + setup is acyclic, a task that
+    depends on another emitted task is cleaned before it -/
+theorem dependents_first (tbl : Table) (r : Req) (base : List Name) (p : Plan)
+    (hb : cleanList tbl r = .ok base) (hp : plan tbl r = .ok p) (hf : BuildFuelOk tbl r base)
+    (hdeps : withDeps r = true) (hac : acyclicB tbl = true) :
+    ∀ a b, b ∈ depsOf tbl a → a ∈ p.order → b ∈ p.order → p.order.idxOf a < p.order.idxOf b := by
+  have hnd := tree_nodup hf
+  have hperm := (flat_spec (buildTree tbl r base).nodes).2
+  have hord : p.order = (flat (buildTree tbl r base).nodes).out := by
+    rw [plan_order hb hp]; exact dedup_redundant _ hnd
+  rw [hord]
+  intro a b hab ha hb'
+  have hfa := hf
+  unfold BuildFuelOk at hfa
+  have htree : (buildTree tbl r base) = buildAll (depsOf tbl) (tbl.length + 1) base := by
+    simp [buildTree, hdeps]
+  rw [htree] at hfa hperm ha hb' ⊢
+  obtain ⟨s1, s2, _, s4, _⟩ := buildAll_spec _ _ _ hfa
+  have hG : GOK (depsOf tbl) (depth (depsOf tbl) (tbl.length + 1))
+      (buildAll (depsOf tbl) (tbl.length + 1) base).nodes :=
+    ⟨s1, fun b a h => (s2 b a h).2, fun b a h => (s2 b a h).1, acyclicB_sound tbl hac⟩
+  have hak := hperm.mem_iff.1 ha
+  exact (flat_order hG b hb' a (s4 a hak b hab).2).2
 
 end DoitModel.C14
